@@ -72,7 +72,7 @@ RULE = (
     "whole decades, 5..20 points per decade, resistance scale 10^U(-2,2) with elements within one decade, series resistance "
     "present or absent; spectrum from the harness's own model.  Cells: tr-nnls {real, imaginary} x {fixed lambda in "
     "[1e-4,1e-2], suggested, L-curve} each with a Z-scaled and an f-scaled twin; lm {automatic, explicit order} on RC ladders "
-    "without R0 plus scaled twins; mrq-fit with a synthetic fit object (whole circuit, each one-element circuit, scaled "
+    "without R0 in windows <= 9 decades (<= 130 points) plus scaled twins; mrq-fit with a synthetic fit object (whole circuit, each one-element circuit, scaled "
     "twins) and a few real fits.  A case is non-trivial when calculate_drt returned and at least one clause was compared; "
     "distinct = distinct (method cell, element kinds, ppd, decades, rounded log10 tau_k, rounded log10 R_k)."
 )
